@@ -180,6 +180,19 @@ impl Prop for C01 {
     fn n_cases(&self) -> u64 {
         self.cases.len() as u64
     }
+    /// pair block: honest / key+2 / other certificate's key, for the plain, restricted-admin and blank-credentials
+    /// configurations, in every order (a proof accepted in one connection must not carry over to the next)
+    fn pair_reps(&self, _tier: Tier) -> Vec<u64> {
+        let mut v = vec![];
+        for cfg in 0..3usize {
+            for want in ["Honest", "Offset(2)", "OtherCertificate"] {
+                if let Some(i) = self.cases.iter().position(|c| c.cfg_id == cfg && c.cert == Cert::A && format!("{:?}", c.reply).starts_with(want)) {
+                    v.push(i as u64);
+                }
+            }
+        }
+        v
+    }
     fn describe(&self, idx: u64) -> Value {
         let c = &self.cases[idx as usize];
         json!({"idx": idx, "config": configs()[c.cfg_id], "certificate": c.cert, "final_round_reply": c.reply})
